@@ -135,6 +135,9 @@ PRE = [
     {},
     {"notes.txt": "keep me", "sub/x.h": "// nested header"},
     {"fcp.h": "stale", "default.fcp": "stale dbc", "can_frame.h": "stale", "ecu_can.c": "stale", "a.c": "int x;", "b.h": "//"},
+    # same-named files much longer than anything generated: a write that does not truncate leaves a stale tail
+    {"fcp.h": "// stale\n" * 20000, "default.fcp": "stale dbc line\n" * 5000, "b1.fcp": "stale\n" * 5000, "dynamic.h": "x" * 400000,
+     "can_frame.h": "// old\n" * 5000, "ecu_can.c": "// old\n" * 20000, "sub/keep.txt": "keep"},
 ]
 
 
